@@ -166,7 +166,7 @@ def histories(ctx):
         f1sel = {"tasks": [dict(f1spec["tasks"][0], marks=[]), dict(f1spec["tasks"][1])], "versions": {"0": 0}, "inputs": {}}
         hs.append({"tag": "corpus-F1-select", "spec": f1sel, "steps": [["build", {"k": "task_t01x"}]]})
     hs += small_scope(ctx)
-    for i in range(ctx.scale(90, 1300)):
+    for i in range(ctx.scale(120, 1300)):
         spec = engine.gen_spec(rng, nt=(2, 7), after_p=0.25, after_needs_prods=not (F1_KNOWN and i % 5 == 0), user_markers=True,
                                marks=(("skip", 0.12), ("skipif_true", 0.1), ("skipif_false", 0.15), ("persist", 0.08)))
         steps = []
